@@ -216,8 +216,27 @@ pub fn case_files(id: &str, r: &mut Rng) -> String {
     format!("{} scen={} path={} opens={}", o.line.replacen("kind=dump", "kind=files", 1), scen, hex(path.as_bytes()), opens)
 }
 
+/// a target whose thread-group leader has exited (a zombie: never seen stopped, cannot be attached to), dumped with
+/// every kind of waiting time for the stop request — the request must return
+pub fn case_zombie(id: &str, r: &mut Rng) -> String {
+    let nblock = r.range(1, 3);
+    let t = match Target::spawn(&["-t".to_string(), nblock.to_string(), "-Z".to_string()]) {
+        Ok(t) => t,
+        Err(_) => return format!("C02 {} kind=spawnfail result=skip", id),
+    };
+    let mut cfg = DumpCfg::default();
+    cfg.blamed = *r.pick(&[t.threads[1].tid, t.threads[1].tid, t.threads[0].tid]);
+    cfg.stop_timeout_ns = Some(*r.pick(&[0u64, 1, 300_000, 999_999, 1_000_001, 2_500_000, 3_000_000]));
+    let mut dest = crate::recdest::RecDest::new(vec![], 0);
+    let o = dump_case("C02", id, &t, &cfg, &mut dest, &format!("zombie=1 timeout={}", cfg.stop_timeout_ns.unwrap()));
+    o.line
+}
+
 pub fn generate(seed: u64, tier: &str, out: &mut dyn std::io::Write) {
     let (nsov, ndso, nfiles) = if tier == "thorough" { (100000, 200, 80) } else { (10000, 36, 18) };
+    for i in 0..(if tier == "thorough" { 60 } else { 10 }) {
+        writeln!(out, "{}", case_zombie(&format!("z{}-{}", seed, i), &mut Rng::for_case(seed, 3002, i))).unwrap();
+    }
     for i in 0..nsov {
         writeln!(out, "{}", case_sover(&format!("v{}-{}", seed, i), &mut Rng::for_case(seed, 2, i))).unwrap();
     }
